@@ -33,7 +33,7 @@ package limits
 // TakeMsg: on failure no permit is held (everything acquired is rolled back); on success one permit in each
 // configured scope under the keys (ip, sender domain) is held.
 //@ func (*Group).TakeMsg
-//@   prop C11 C03
+//@   prop C11
 //@   nopanic
 //@   requires groupOK(g) && ctx != nil
 //@   modifies limiters.L.held, limiters.BucketSet.holds
@@ -46,7 +46,7 @@ package limits
 
 // ReleaseMsg returns exactly what a successful TakeMsg with the same keys took.
 //@ func (*Group).ReleaseMsg
-//@   prop C11 C03
+//@   prop C11
 //@   nopanic
 //@   requires groupOK(g)
 //@   requires forall k int :: 0 <= k && k < len(g.global.Wrapped) ==> g.global.Wrapped[k].held > 0
